@@ -145,8 +145,21 @@ def render(items, indent=""):
             out += render(it[3], indent + "  ")
             out.append(indent + "@endmacro")
         else:
-            out.append(indent + it[1] + (" " + " ".join(it[2]) if it[2] else ""))
+            flat = list(it[2])
+            if flat and RENDER_RNG is not None and RENDER_RNG.random() < 0.25:
+                # an argument may start on the next line (after the macro name or after a comma), also after a comment
+                starts = [0] + [i + 1 for i, t in enumerate(flat) if t == "," and _depth_at(flat, i) == 0]
+                k = RENDER_RNG.choice(starts)
+                flat.insert(k, RENDER_RNG.choice(["\n", "; arg\n", "\n\n"]) + indent + "   ")
+            out.append(indent + it[1] + (" " + " ".join(flat) if flat else ""))
     return out
+
+RENDER_RNG = None
+def _depth_at(flat, i):
+    d = 0
+    for t in flat[:i]:
+        d += (t == "{") - (t == "}")
+    return d
 
 class BadCall(Exception):
     pass
@@ -263,6 +276,7 @@ TOKRE = re.compile(r'"[^"]*"|[A-Za-z_@.][A-Za-z0-9_.]*|\$[0-9a-fA-F]+|\d+|<<<|>>
 def tokenize(text):
     toks = []
     for ln in text.split("\n"):
+        ln = ln.split(";")[0]                 # comments (no string of these programs contains a semicolon)
         toks += TOKRE.findall(ln)
         toks.append("\n")
     return toks
@@ -283,7 +297,10 @@ def run(ck):
     cases, expect = [], []
     for _ in range(12000 if thorough else 1500):
         items = gen_program(rng)
+        global RENDER_RNG
+        RENDER_RNG = rng
         p = "\n".join(render(items)) + "\n"
+        RENDER_RNG = None
         try:
             q = untokenize(RefExpander(tokenize(p)).run())
             if not q.endswith("\n"):
